@@ -8,6 +8,7 @@ package zz_verif_sim
 
 import (
 	"fmt"
+	"regexp"
 	"sort"
 	"strings"
 )
@@ -27,6 +28,9 @@ type c18Plan struct {
 	// what a failed creation leaves behind must not reach the runners created or stepped around it.
 	Broken []World `json:"broken,omitempty"`
 }
+
+// lineIDRE finds the id word of generated lines ("L12") at the start of a line.
+var lineIDRE = regexp.MustCompile(`(?m)^(\s*L\d+)\b`)
 
 var brokenTails = []string{
 	"title: Brk\n---\n-> a\n    x\n \ty\n===\n",
@@ -63,7 +67,7 @@ func c18Gen(tp *Tape, env *Env, maxRunners int) (*c18Plan, []*Program) {
 	var vars [][3][]string
 	for i := 0; i < nprog; i++ {
 		cfg := &GenCfg{
-			MaxNodes: 3, MaxStmts: 4, MaxDepth: 2, MaxTotal: 20,
+			MaxNodes: tp.Int(3, 6, "maxnodes"), MaxStmts: 4, MaxDepth: 2, MaxTotal: 20,
 			WLine: 9, WOptions: 4, WIf: 3, WSet: 4, WJump: 3, WJumpE: 1, WStop: 1, WCall: 2, WCommand: 2,
 			NVars: [3]int{2, 1, 1}, NJVars: 1, Probes: true, Visited: true, Random: tp.Bool("random"), ExprDepth: 2,
 			InlinePct: 35, CondPct: 30, VarLines: true, Builtins: true, MoreBuiltins: 20, CountLines: tp.Chance(30, "countlines"), MarkupLines: true,
@@ -99,7 +103,19 @@ func c18Gen(tp *Tape, env *Env, maxRunners int) (*c18Plan, []*Program) {
 			rt := tp.Int(at+1, len(ops), "restoreat")
 			ops = append(ops[:rt], append([]Op{{K: "restore", Slot: 0}}, ops[rt:]...)...)
 		}
-		cp.Runners = append(cp.Runners, c18Runner{World: worlds[pi], Ops: ops})
+		w := worlds[pi]
+		if len(w.Readers) >= 2 && tp.Chance(35, "readervariant") {
+			// the same first reader, a last reader that differs in one line's text: two runners whose scripts share a
+			// prefix byte for byte are still two independent dialogues
+			last := w.Readers[len(w.Readers)-1]
+			if last.B64 == "" {
+				if v := lineIDRE.ReplaceAllString(last.Text, "${1}v"+fmt.Sprint(r)); v != last.Text {
+					last.Text = v
+					w.Readers = append(append([]ReaderSpec{}, w.Readers[:len(w.Readers)-1]...), last)
+				}
+			}
+		}
+		cp.Runners = append(cp.Runners, c18Runner{World: w, Ops: ops})
 		total += len(ops) + 1
 	}
 	for i := 0; i < total; i++ {
